@@ -306,3 +306,221 @@ def c14_replay(path):
         return 0
     print("REPLAY-RESULT violation class=%s detail=%s" % v)
     return 1 if v[0] == obj["violation_class"] else 3
+
+
+# ---------------------------------------------------------------------------------- C15
+
+def sha(path):
+    return hashlib.sha256(open(path, "rb").read()).hexdigest()
+
+
+def c15_corpus():
+    """Programs compiled by the C15 check: the four drivers plus a fixed, sorted sample of the
+    repository's runtime tests (only files whose reference compile succeeds are kept)."""
+    files = [os.path.join(VERIF, "workloads", n + ".dora") for n in ("heapgraph", "sync", "trapio", "exhaust")]
+    rt = []
+    for root, _, names in os.walk(os.path.join(REPO, "test", "rt")):
+        for n in names:
+            if n.endswith(".dora"):
+                rt.append(os.path.join(root, n))
+    rt.sort()
+    # deterministic thinning: every k-th file
+    k = max(1, len(rt) // 40)
+    files += rt[::k]
+    return files
+
+
+def c15_build(dora, boots, src, kind, cg, gc, pert, outdir):
+    """One pipeline run under an environment perturbation. Returns (rc, {artifact: sha}, stderr)."""
+    os.makedirs(outdir, exist_ok=True)
+    env = {"PATH": os.environ.get("PATH", "/usr/bin:/bin"), "HOME": pert["home"], "LANG": pert["lang"], "TMPDIR": pert["tmpdir"],
+           "LD_PRELOAD": INTERPOSER, "VERIF_RANDOM_SEED": str(pert["rseed"]), "VERIF_CLOCK_OFFSET": str(pert["clock"])}
+    for i in range(pert["noise"]):
+        env["VERIF_NOISE_%d" % i] = "x" * (i * 37 % 101)
+    os.makedirs(pert["tmpdir"], exist_ok=True)
+    os.makedirs(pert["home"], exist_ok=True)
+    for n in pert["neighbours"]:
+        with open(os.path.join(outdir, n), "w") as f:
+            f.write("neighbour\n")
+    out = os.path.join(outdir, "artifact")
+    cmd = [dora, "compile", src, "--gc=" + gc]
+    cmd += ["--cannon"] if cg == "cannon" else ["--compiler", boots]
+    if kind == "package":
+        out += ".dora-package"
+        cmd += ["-c", "-o", out]
+    elif kind == "asm":
+        cmd += ["-S", "-o", out]
+    else:
+        cmd += ["-o", out]
+    if pert["aslr_off"]:
+        cmd = ["setarch", "-R"] + cmd
+    try:
+        p = subprocess.run(cmd, env=env, cwd=pert["cwd"], stdout=subprocess.PIPE, stderr=subprocess.PIPE, timeout=300)
+    except subprocess.TimeoutExpired:
+        return -9, {}, "timeout"
+    arts = {}
+    if p.returncode == 0:
+        path = out + ".s" if kind == "asm" else out
+        if os.path.exists(path):
+            arts[kind] = sha(path)
+    return p.returncode, arts, p.stderr.decode(errors="replace")[-600:]
+
+
+def c15(tier):
+    import shutil
+    t0 = time.time()
+    dbg = build_repo(("dora", "dora-runtime", "dora-startup"))
+    dora = os.path.join(dbg, "dora")
+    build_interposer()
+    base = os.path.join(WORK, "c15")
+    shutil.rmtree(base, ignore_errors=True)
+    os.makedirs(base)
+    boots = os.path.join(base, "boots-stage1")
+    p = tb.sh([dora, "compile", "--internal-compile-boots", "--cannon", os.path.join(REPO, "pkgs/boots/boots.dora"), "-o", boots])
+    if p.returncode != 0:
+        harness_error("building boots stage1 failed: " + p.stderr.decode(errors="replace")[-2000:])
+    budget = tier_budget(tier, 60, 1200)
+    s = seed()
+    corpus = c15_corpus()
+    shared_tmp = os.path.join(base, "shared-tmp")
+
+    def pert_for(rng, uid, sibling_group=None):
+        d = os.path.join(base, "p%s" % uid)
+        cwd = os.path.join(d, "cwd", *(["deep"] * rng.randint(0, 3)))
+        os.makedirs(cwd, exist_ok=True)
+        return {"rseed": rng.getrandbits(60) if sibling_group is None else sibling_group, "clock": rng.choice([0, 86400 * 365 * 5, -86400 * 3000, 1 << 31]),
+                "tmpdir": shared_tmp if sibling_group is not None else os.path.join(d, "tmp"), "home": os.path.join(d, "home"), "lang": rng.choice(["C", "C.UTF-8", "en_US.UTF-8", "de_AT.UTF-8"]),
+                "noise": rng.randint(0, 30), "neighbours": ["n%d" % k for k in range(rng.randint(0, 4))], "aslr_off": rng.random() < 0.3, "cwd": cwd, "dir": d}
+
+    def task(i):
+        rng = tb.stream(s, "C15", i, "config")
+        src = corpus[i % len(corpus)]
+        kind = rng.choices(["package", "asm", "exe"], [2, 5, 2])[0]
+        cg = rng.choice(["cannon", "boots"])
+        gc = rng.choice(["swiper", "copy", "sweep", "zero"])
+        nbuilds = 3
+        sibling = rng.random() < 0.35
+        group = rng.getrandbits(60) if sibling else None
+        perts = [pert_for(rng, "%d-%d" % (i, k), group) for k in range(nbuilds)]
+        results = [None] * nbuilds
+
+        def one(k):
+            results[k] = c15_build(dora, boots, src, kind, cg, gc, perts[k], os.path.join(perts[k]["dir"], "out"))
+
+        if sibling:
+            ths = [threading.Thread(target=one, args=(k,)) for k in range(nbuilds)]
+            for t in ths:
+                t.start()
+            for t in ths:
+                t.join()
+        else:
+            for k in range(nbuilds):
+                one(k)
+        for pt in perts:
+            shutil.rmtree(pt["dir"], ignore_errors=True)
+        return {"index": i, "src": src, "kind": kind, "cg": cg, "gc": gc, "sibling": sibling, "perts": perts, "results": results}
+
+    def classify(r, res=None):
+        rs = r["results"]
+        rcs = [x[0] for x in rs]
+        if all(rc != 0 for rc in rcs):
+            # the program does not compile (a test that expects a compile error): not a build
+            return None
+        if any(rc != 0 for rc in rcs):
+            return ("nondeterministic-failure", "exit statuses %r for identical inputs; %s" % (rcs, [x[2][-160:] for x in rs if x[0] != 0][:1]))
+        hashes = [x[1].get(r["kind"]) for x in rs]
+        if len(set(hashes)) != 1:
+            return ("artifact-differs", "%s of %s (%s, %s): %r" % (r["kind"], os.path.basename(r["src"]), r["cg"], r["gc"], [h[:12] if h else None for h in hashes]))
+        return None
+
+    done = pool_run(task, lambda r: r, lambda r, res: classify(r), budget, stop_on_violation=True)
+    evals = 0
+    compiled = 0
+    distinct = set()
+    samples = []
+    by = {}
+    vio = []
+    for i in sorted(done):
+        r, _ = done[i]
+        evals += len(r["results"])
+        v = classify(r)
+        if all(x[0] == 0 for x in r["results"]):
+            compiled += 1
+            distinct.add((r["src"], r["kind"], r["cg"], r["gc"]))
+            for k in ("kind", "cg", "gc", "sibling"):
+                by["%s=%s" % (k, r[k])] = by.get("%s=%s" % (k, r[k]), 0) + 1
+            if len(samples) < 3:
+                samples.append({"program": os.path.relpath(r["src"], "/"), "artifact": r["kind"], "codegen": r["cg"], "gc": r["gc"], "sibling_pipelines_sharing_random_stream_and_TMPDIR": r["sibling"],
+                                "sha256": r["results"][0][1].get(r["kind"]), "perturbations": [{k: p[k] for k in ("rseed", "clock", "lang", "noise", "neighbours", "aslr_off")} for p in r["perts"]]})
+        if v is not None:
+            vio.append((r, v))
+    chains = []
+    exit_code = 0
+    reported = []
+    # bootstrap chain (thorough, or when the budget allows): stage2 == stage3 under different hash seeds
+    if tier == "thorough" or os.environ.get("VERIF_C15_CHAIN") == "1":
+        for c in range(3 if tier == "thorough" else 1):
+            rng = tb.stream(s, "C15", c, "chain")
+            stages = [boots]
+            shas = []
+            ok = True
+            for st in (2, 3):
+                outp = os.path.join(base, "chain%d-stage%d" % (c, st))
+                env = dict(os.environ)
+                env.update({"LD_PRELOAD": INTERPOSER, "VERIF_RANDOM_SEED": str(rng.getrandbits(60)), "VERIF_CLOCK_OFFSET": str(rng.choice([0, 10**8]))})
+                p = subprocess.run([dora, "compile", "--internal-compile-boots", "--compiler", stages[-1], os.path.join(REPO, "pkgs/boots/boots.dora"), "-o", outp],
+                                   env=env, stdout=subprocess.PIPE, stderr=subprocess.PIPE)
+                if p.returncode != 0:
+                    vio.append(({"index": -1, "chain": c, "stage": st}, ("bootstrap-failed", "stage %d failed: %s" % (st, p.stderr.decode(errors="replace")[-300:]))))
+                    ok = False
+                    break
+                stages.append(outp)
+                shas.append(sha(outp))
+            if ok:
+                chains.append({"chain": c, "stage2": shas[0], "stage3": shas[1]})
+                if shas[0] != shas[1]:
+                    vio.append(({"index": -1, "chain": c}, ("bootstrap-differs", "stage2 %s != stage3 %s" % (shas[0][:12], shas[1][:12]))))
+            for st in stages[1:]:
+                if os.path.exists(st):
+                    os.remove(st)
+    seen = set()
+    for r, v in vio:
+        if v[0] in seen:
+            continue
+        seen.add(v[0])
+        rr = {k: r[k] for k in r if k not in ("results",)}
+        rp = save_replay("C15", {"property": "C15", "tier": "C", "task": rr, "violation_class": v[0], "violation": v[1],
+                                 "results": [(x[0], x[1]) for x in r.get("results", [])]})
+        key = "%s:%s" % (v[0], os.path.basename(r.get("src", "chain")))
+        k = match_known("C15", key)
+        if k:
+            report_known("C15", k["what"])
+        else:
+            report_violation("C15", rp)
+            log("  class=%s detail=%s" % v)
+            exit_code = 1
+        reported.append({"class": v[0], "detail": v[1], "replay": rp})
+    shutil.rmtree(base, ignore_errors=True)
+    wall = time.time() - t0
+    coverage = {
+        "evaluations": evals,
+        "distinct_nontrivial": len(distinct),
+        "rule": "one evaluation = one run of the real compile pipeline (dora compile -> code generator process -> gcc -> link) under an environment perturbation (getrandom stream = hash-map seeds and temp names, clock offset, cwd, HOME, LANG, TMPDIR, environment size, output-directory neighbours, ASLR on/off; in sibling mode three pipelines run concurrently with identical random streams in one TMPDIR); every (program, options) is built 3 times and the sha256 of the artifact must agree; "
+                "distinct non-trivial = distinct (program, artifact kind, code generator, collector) that compiled and were compared",
+        "samples": samples,
+        "program_option_combinations_compared": compiled,
+        "corpus_size": len(corpus),
+        "configuration_counts": by,
+        "bootstrap_chains": chains,
+        "fault_kinds_fired": {"hash_seed_variation": evals, "tmp_name_collision_groups": by.get("sibling=True", 0), "clock_jump": evals},
+        "runs_per_hour": int(evals / max(wall, 1) * 3600),
+        "components_real": ["real dora, dora-cannon-compiler, boots stage1 (built from the working tree), gcc, ld"],
+        "components_stub": ["getrandom / clock_gettime / time interposed by env/verifenv.c"],
+        "violations_reported": reported,
+        "level_text": "seeded sampling of environment perturbations; sibling concurrency is ordered by the OS (cannot cause a false alarm: equal outputs are required under every order)",
+    }
+    write_evidence("C15", tier, "exploration", coverage, wall, len(reported),
+                   ["source paths are absolute and identical across builds; the output path differs between builds (the property allows that the neighbours, not the path, vary - an embedded output path would be reported)",
+                    "bootstrap chains only in the thorough tier (3 chains, different hash seeds per stage)"])
+    log("C15: %d pipeline runs, %d (program, options) combinations compared, %d chains, %d violation class(es), %.1fs" % (evals, compiled, len(chains), len(reported), wall))
+    return exit_code
